@@ -65,6 +65,31 @@ def h_permute_samples(B, cls="EOF", n=4, p=2, perm=(2, 0, 3, 1), rot=None):
     B.eq("sample permutation: scores permuted identically", m2.scores(), m1.scores().isel(time=list(perm)))
 
 
+def h_two_sample_dims(B, variant="list"):
+    """two sample dimensions given as dim=("t1","t2"); one input (or one list element) stores them in the other order"""
+    A = xr.DataArray(B.array((2, 3, 2), "a"), dims=("t1", "t2", "x"), coords={"t1": ["a", "b"], "t2": [0, 1, 2], "x": XS[:2]}, name="v_a")
+    Bv = xr.DataArray(B.array((2, 3, 2), "b"), dims=("t1", "t2", "y"), coords={"t1": ["a", "b"], "t2": [0, 1, 2], "y": XS[:2]}, name="v_b")
+    dim = ("t1", "t2")
+    if variant == "list":
+        m1 = _fit("EOF", [A, Bv], dim)
+        m2 = _fit("EOF", [A, Bv.transpose("t2", "t1", "y")], dim)
+        B.eq("list element with transposed sample dims: singular values", m2.data["norms"], m1.data["norms"])
+        B.eq("list element with transposed sample dims: scores", m2.scores(), m1.scores(), ignore_order=True)
+        B.eq("list element with transposed sample dims: components[1]", m2.components()[1], m1.components()[1])
+    elif variant == "eeof":
+        kw = {"tau": 1, "embedding": 2}
+        m1 = _fit("ExtendedEOF", A, dim, **kw)
+        m2 = _fit("ExtendedEOF", A.transpose("t2", "x", "t1"), dim, **kw)
+        B.eq("ExtendedEOF, transposed sample dims: singular values", m2.data["norms"], m1.data["norms"])
+        B.eq("ExtendedEOF, transposed sample dims: scores", m2.scores(), m1.scores(), ignore_order=True)
+    elif variant == "dataarray":
+        m1 = _fit("EOF", A, dim)
+        m2 = _fit("EOF", A.transpose("x", "t2", "t1"), dim)
+        B.eq("DataArray with transposed sample dims: singular values", m2.data["norms"], m1.data["norms"])
+        B.eq("DataArray with transposed sample dims: scores", m2.scores(), m1.scores(), ignore_order=True)
+        B.eq("DataArray with transposed sample dims: components", m2.components(), m1.components())
+
+
 def h_split(B, container="dataset", n=4, p=4):
     X = da3d(B, "x", n, 2, p // 2)
     A, Bv = X.isel(lat=0, drop=True), X.isel(lat=1, drop=True)
@@ -146,6 +171,8 @@ def configs(tier):
     add("h_names", "EOFRotator|names=s,f", p=3, rot={"n_modes": 2, "power": 1})
     add("h_names", "EOF|names=feature,sample (swapped literals)", names=("feature", "sample"))
     add("h_names", "EOF|names=mode2,x2", names=("mode2", "x2"))
+    for v in ("list", "eeof", "dataarray"):
+        add("h_two_sample_dims", f"two sample dims|{v}", variant=v)
     add("h_split", "EOF|split dataset", container="dataset")
     add("h_split", "EOF|split list", container="list")
     add("h_names", "ExtendedEOF|names=s,f", cls="ExtendedEOF", extra={"tau": 1, "embedding": 2})
